@@ -9,24 +9,43 @@ set -u
 id="$1"; runs="${2:-300000}"
 t="fuzz_$(echo "$id" | tr 'A-Z' 'a-z')"
 seed="${VERIF_SEED:-1}"; [ "$seed" = "0" ] && seed=1
-cd /verif/harness
+V="${VERIF_DIR:-/verif}"
+cd "$V/harness"
 export CARGO_NET_OFFLINE=true
-mkdir -p /verif/work
-if ! cargo +nightly fuzz build --fuzz-dir /verif/fuzz "$t" > "/verif/work/build-$t.log" 2>&1; then
-    echo "HARNESS-ERROR property=$id cannot build fuzz target $t"; tail -20 "/verif/work/build-$t.log"; exit 3
+mkdir -p $V/work
+if ! cargo +nightly fuzz build --fuzz-dir $V/fuzz "$t" > "$V/work/build-$t.log" 2>&1; then
+    echo "HARNESS-ERROR property=$id cannot build fuzz target $t"; tail -20 "$V/work/build-$t.log"; exit 3
 fi
-corpus="/verif/work/fuzz/$t/corpus"; rm -rf "/verif/work/fuzz/$t"; mkdir -p "$corpus" "/verif/work/fuzz/$t/artifacts"
-[ -d "/verif/fuzz/seeds/$t" ] && cp -r "/verif/fuzz/seeds/$t/." "$corpus/" 2>/dev/null
-log="/verif/work/fuzz/$t/log.txt"
+# tape length (u32 words) of each generator: the input is the tape, so max_len = 4 * words
+case "$t" in
+  fuzz_c02) words=280;; fuzz_c03) words=320;; fuzz_c04) words=260;; fuzz_c05) words=96;; fuzz_c06) words=900;;
+  fuzz_c07) words=1600;; fuzz_c08) words=900;; fuzz_c09) words=800;; fuzz_c10) words=2000;; fuzz_c11) words=420;;
+  fuzz_c12) words=1800;; fuzz_c13) words=1600;; fuzz_c14) words=3000;; fuzz_c15) words=1400;; fuzz_c16) words=400;;
+  fuzz_c17) words=1200;; fuzz_c18) words=1600;; fuzz_c19) words=1100;; *) words=400;;
+esac
+maxlen=$((words*4))
+corpus="$V/work/fuzz/$t/corpus"; rm -rf "$V/work/fuzz/$t"; mkdir -p "$corpus" "$V/work/fuzz/$t/artifacts"
+[ -d "$V/fuzz/seeds/$t" ] && cp -r "$V/fuzz/seeds/$t/." "$corpus/" 2>/dev/null
+# starting corpus: a few full-length and short pseudo-random tapes (a pure function of the seed), so
+# that the campaign does not spend its budget growing inputs from nothing
+python3 - "$corpus" "$maxlen" "$seed" <<'PY'
+import sys, random
+d, n, seed = sys.argv[1], int(sys.argv[2]), int(sys.argv[3])
+r = random.Random(seed)
+for i in range(12):
+    ln = n if i < 8 else max(8, n // (2 ** (i - 6)))
+    open(f"{d}/seed-{i:02d}", "wb").write(bytes(r.getrandbits(8) for _ in range(ln)))
+PY
+log="$V/work/fuzz/$t/log.txt"
 start=$(date +%s)
-cargo +nightly fuzz run --fuzz-dir /verif/fuzz "$t" "$corpus" -- -runs="$runs" -seed="$seed" -max_len=64 -len_control=0 \
-    -artifact_prefix="/verif/work/fuzz/$t/artifacts/" -print_final_stats=1 > "$log" 2>&1
+cargo +nightly fuzz run --fuzz-dir $V/fuzz "$t" "$corpus" -- -runs="$runs" -seed="$seed" -max_len="$maxlen" -len_control=0 \
+    -artifact_prefix="$V/work/fuzz/$t/artifacts/" -print_final_stats=1 > "$log" 2>&1
 code=$?
 end=$(date +%s)
 grep -E "^violation |^VIOLATION " "$log"
-python3 - "$id" "$t" "$log" "$runs" "$seed" "$((end-start))" "$code" <<'PY'
+python3 - "$id" "$t" "$log" "$runs" "$seed" "$((end-start))" "$code" "$V" <<'PY'
 import json,sys,re,os
-id,t,log,runs,seed,wall,code=sys.argv[1:8]
+id,t,log,runs,seed,wall,code,V=sys.argv[1:9]
 text=open(log,errors='replace').read()
 def stat(name):
     m=re.search(name+r":\s+(\d+)",text); return int(m.group(1)) if m else None
@@ -35,7 +54,7 @@ for m in re.finditer(r"cov: (\d+) ft: (\d+) corp: (\d+)",text): cov=(int(m.group
 block={"target":t,"engine":"libFuzzer (cargo-fuzz, ASan)","runs_requested":int(runs),"executed_units":stat("stat::number_of_executed_units"),
        "new_units_added":stat("stat::new_units_added"),"final_cov_edges":cov[0] if cov else None,"final_features":cov[1] if cov else None,
        "corpus_size":cov[2] if cov else None,"seed":int(seed),"wall_s":int(wall),"exit_code":int(code)}
-p=f"/verif/evidence/{id}.json"
+p=f"{V}/evidence/{id}.json"
 try:
     e=json.load(open(p)); e["coverage"]["fuzz"]=block; json.dump(e,open(p,"w"),indent=1)
 except Exception as ex: print("note: could not append fuzz block:",ex)
